@@ -426,7 +426,7 @@ def gen_c14(rng, cid, npool=6, nops=14):
     state = {i: p for i, p in enumerate(pool)}
     exp = []  # expected observations
     for _ in range(nops):
-        op = rng.choice(['XCOPY', 'XMOVE', 'XASG', 'XMASG', 'XEQ', 'XEQ', 'XMUTCOPY', 'XSELF', 'XTYPE', 'XETH'])
+        op = rng.choice(['XCOPY', 'XMOVE', 'XASG', 'XMASG', 'XEQ', 'XEQ', 'XMUTCOPY', 'XSELF', 'XTYPE', 'XETH', 'XRAWHDR'])
         a, b = rng.below(npool), rng.below(npool)
         if op == 'XEQ':
             lines.append('XEQ %d %d' % (a, b)); lines.append('XEQ %d %d' % (b, a)); lines.append('XEQ %d %d' % (a, a))
@@ -449,6 +449,10 @@ def gen_c14(rng, cid, npool=6, nops=14):
             lines += ['XMASG %d %d' % (a, b), 'XSHOW %d' % a]
             old = state[a]; state[a] = state[b]; state[b] = old
             exp.append(('show', state[a]))
+        elif op == 'XRAWHDR':
+            # the raw headers written into a destination that already holds other data (fill byte 0xA5 / 0xFF / 0x00)
+            lines.append('XRAWHDR %d %d' % (a, rng.choice([0xA5, 0xFF, 0x00, 0x5A])))
+            exp.append(('rawhdr', state[a]))
         elif op == 'XETH':
             # edit the payload in place through the non-const getPayload() (size changes under the packet), then observe / copy it
             if state[a] is None or state[a].get('nopl'):
@@ -482,8 +486,25 @@ def judge_c14(case, lines):
     if an:
         return an[0]
     obs = [l for l in lines if l.startswith(('K ', 'B '))]
+    raws = [l for l in lines if l.startswith(('R 0 ', 'R -'))]
+    ri = 0
     i = 0
     for e in case.meta['exp']:
+        if e[0] == 'rawhdr':
+            if ri >= len(raws):
+                return 'transcript out of step (raw headers)'
+            line = raws[ri]; ri += 1
+            p = e[1]
+            if p is None or p.get('nopl') or line.startswith('R -'):
+                continue
+            got = bytes.fromhex(line.split()[2][1:])    # headers of a packet without payload: decided by the comparison with the model
+            mt = p['mt']
+            ident = p['ifid'] if mt == 1 else (p['vendor'] if mt in (3, 255) else 0)
+            want = bytes([p['ver'], 0]) + be(p['dev'], 2) + bytes([mt, p['stream']]) + be(p['seq'], 2) + \
+                   be(p['ts'], 8) + be(ident, 4) + bytes([p['flags'], p['pt']]) + be(len(p['payload']) % 65536, 2)
+            if got != want:
+                return 'raw headers written into a used destination: got %s, the layout prescribes %s' % (got.hex(), want.hex())
+            continue
         if e[0] == 'show':
             if i >= len(obs) or not obs[i].startswith('K '):
                 return 'transcript out of step'
